@@ -161,6 +161,12 @@ func Classify(c Case) (bool, []string) {
 				default:
 					labels["file: ≥32MiB (spilled to disk by the server)"] = true
 				}
+				if f.Seek {
+					labels["file source implements io.Seeker"] = true
+					if f.Pre > 0 {
+						labels["seekable file source positioned past a consumed preamble"] = true
+					}
+				}
 				if strings.ContainsAny(string(f.Name), "/\\") {
 					labels["file name with a directory part"] = true
 				}
